@@ -12,7 +12,8 @@ func Run(c *fw.Ctx) {
 	c.Cases("copy.gradient", c.N(320, 9600), gradientCopyCase)
 	c.Cases("copy.sparse-const", c.N(2240, 67200), sparseConstCopyCase)
 	c.Cases("input.op", c.N(30960, 928800), opsInputCase)
-	c.Cases("input.algorithm", c.N(29696, 890880), algInputCase)
+	c.Cases("input.op-concrete", c.N(27000, 810000), concreteOpsCase)
+	c.Cases("input.algorithm", c.N(30720, 921600), algInputCase)
 	c.Cases("input.algorithm-reuse", c.N(14336, 430080), algReuseCase)
 	c.Cases("dist", c.N(16128, 483840), distCase)
 	c.Cases("input.estimator", c.N(4160, 124800), estimatorCase)
